@@ -935,7 +935,13 @@ class Mesh:
                     )
                 m = mtmp
         else:
-            m = m._adaptive(times_or_ix)
+            marked = np.asarray(times_or_ix)
+            if marked.dtype == bool:
+                marked = np.nonzero(marked)[0]
+            elif marked.size == 0:
+                # an empty list or tuple becomes an array of floats
+                marked = marked.astype(np.int32)
+            m = m._adaptive(marked)
         if has_boundaries and m.boundaries is None:
             logger.warning("Named boundaries invalidated by a call to "
                            "Mesh.refined()")
